@@ -85,6 +85,15 @@ var c21FaultCatalogue = []string{
 	"enc:gzip&trail:3", "st:201&notok", "enc:zstd&drift:smeta", "rpcerr&addexc:ValueError", "st:500&addexc:ValueError",
 }
 
+func c21InCatalogue(f string) bool {
+	for _, x := range c21FaultCatalogue {
+		if x == f {
+			return true
+		}
+	}
+	return false
+}
+
 var c21HeaderFaults = []string{"h/drift:name", "h/drift:smeta", "h/dup", "h/nodata", "h/addlog", "h/addexc:ValueError", "h/rows0", "h/loc", "h/noeos", "h/cut:0", "h/notok", "h/usermd"}
 
 var c21Turns = []string{"echo", "echo", "echo", "meta", "zero", "log", "clash", "lvl", "err:ValueError", "err:KeyError", "goerr", "none", "panic"}
@@ -532,6 +541,14 @@ func c21Exec(c *Case) {
 	// mustFail: faults after which the call that consumed the response has to report an error.
 	mustFail := func(op string, w c21Wire, declOK bool) string {
 		if !w.applied {
+			return ""
+		}
+		// A later fault of a random combination can undo an earlier one (a second encoding or status
+		// replaces the first, a truncation removes appended bytes). The verdict by fault NAME is
+		// therefore only used for single faults and for the hand-written combinations of the
+		// catalogue; random combinations are still judged by the model and by the oracles that look
+		// at the response actually delivered (over-cap, unreadable body).
+		if strings.Contains(w.fault, "&") && !c21InCatalogue(w.fault) {
 			return ""
 		}
 		for _, f := range strings.Split(w.fault, "&") {
